@@ -112,12 +112,17 @@ type Task struct {
 	// pending writer (which blocks new readers). Before that it is merely about to call Lock - a plain
 	// scheduling point, like a goroutine preempted just before the call.
 	lockArrived bool
-	wakeAt      time.Duration
-	zeroReads   int
-	crashVal    string
-	crashStack  string
-	syncVar     byte
-	waitSince   int
+	// lockQueued: the Lock call found the mutex held by another WRITER: the task waits for the writers' mutex and
+	// is not yet visible to readers. rlockPre: an RLock that waited for a writer was let in by that writer's Unlock
+	// (it counts as a reader from then on, whenever the task gets to run).
+	lockQueued bool
+	rlockPre   bool
+	wakeAt     time.Duration
+	zeroReads  int
+	crashVal   string
+	crashStack string
+	syncVar    byte
+	waitSince  int
 }
 
 //go:norace
@@ -329,6 +334,9 @@ func (s *Sim) enterWait(t *Task) {
 	switch t.req.kind {
 	case opLock:
 		t.lockArrived = false
+		t.lockQueued = false
+	case opRLock:
+		t.rlockPre = false
 	case opSleep:
 		t.wakeAt = s.now + t.req.dur
 	case opRead:
@@ -383,12 +391,18 @@ func (s *Sim) grantable(t *Task) bool {
 	r := &t.req
 	switch r.kind {
 	case opLock:
+		if t.lockQueued {
+			return !s.lockOf(r.obj, r.keep).writer // the writers' mutex is free again
+		}
 		if !t.lockArrived {
 			return true // about to call Lock: a scheduling point; the call itself happens when scheduled
 		}
 		ls := s.lockOf(r.obj, r.keep)
 		return !ls.writer && ls.readers == 0
 	case opRLock:
+		if t.rlockPre {
+			return true
+		}
 		ls := s.lockOf(r.obj, r.keep)
 		return !ls.writer && ls.pendingW == 0
 	case opSend:
@@ -459,7 +473,11 @@ func (s *Sim) grant(t *Task) string {
 		ls.owner = t
 	case opRLock:
 		ls := s.lockOf(r.obj, r.keep)
-		ls.readers++
+		if t.rlockPre {
+			t.rlockPre = false // counted when the writer unlocked
+		} else {
+			ls.readers++
+		}
 	case opSelect:
 		var ready []int
 		for i, c := range r.chans {
@@ -550,6 +568,19 @@ func (s *Sim) applyNote(t *Task, n *note) {
 		}
 		ls.writer = false
 		ls.owner = nil
+		// Unlock lets in every reader that waited for this writer before any other writer can take over
+		// (sync.RWMutex: readerCount is restored and the blocked readers are released before rw.w is unlocked)
+		// A task that has posted its RLock may or may not have executed the call already (it is a scheduling point
+		// like any other): for each one the choice stream decides whether it was waiting inside RLock (let in now)
+		// or is still about to call it (then a writer that announces itself first keeps it out).
+		for _, o := range s.tasks {
+			if o != t && o.state == stWaiting && o.req.kind == opRLock && o.req.obj == n.obj && !o.rlockPre {
+				if s.choose(2, nil) == 0 {
+					o.rlockPre = true
+					ls.readers++
+				}
+			}
+		}
 	case noteRUnlock:
 		ls := s.lockOf(n.obj, n.keep)
 		if ls.readers <= 0 {
